@@ -11,6 +11,14 @@ fixed(["C06", "C08"], "client-submit-raises:BLOB:TypeError", "fix: client can up
       "client BLOB.to_new_message built OneBLOB without size/format: submit() raised for every BLOB property")
 fixed(["C06", "C08", "C12"], "upload rejected: size compared as str vs int", "fix: driver accepts BLOB uploads parsed from the wire",
       "driver asserted msg.size == len(payload) with msg.size a string for every message that came through a connection")
+fixed(["C15"], "mirror-differs:device-set:after-whole-device-delProperty", "fix: client removes the device on a delProperty",
+      "a delProperty without a name left the device and all its properties in the client's mirror")
+fixed(["C16", "C17"], "callback-missed-event:after-another-callback-removed-itself", "fix: a callback that removes a callback",
+      "BaseClient.trigger_event iterated the live callback list: a callback removing itself made the next one miss the event")
+fixed(["C17"], "wait-returns-not-the-first-match:last-of-batch", "fix: waitforevent returns the first matching event",
+      "of two matching events processed in one batch waitforevent returned the last one")
+fixed(["C19"], "output-out-of-order:tty", "fix: TTY channel writes messages in the order",
+      "TTY writes of messages routed back-to-back ran concurrently in the thread pool and reached stdout in completion order")
 known("C08", "payload-longer-than-threshold-on-threshold-enabled-link",
       "a BLOB message longer than the 2048-character junk threshold is discarded as junk by a framing buffer whose threshold is enabled "
       "(every client->driver upload on the server side; driver->client on a connection that asked for enableBLOB Also without for_blobs) "
